@@ -527,12 +527,13 @@ def main(argv):
     run.distinct = run.evaluations
     run.extra.update({'memory_histories': len(H), 'instruction_sequences': len(Q), 'rep_cases': len(R)})
     run.rule = ('mem: all single-store x load pairs and sampled two-store histories over widths 8/16/32, store offsets %s, loads at offsets %s, constant base 0x1000 and symbolic base init_esi, '
-                'plus seeded 3..6-store histories; seq: every single encoding of a %d-instruction pool, sampled pairs, seeded sequences of length 3..12; rep: %d (prefix, string op, count, df) cases'
+                'plus seeded 3..6-store histories, and adjacent cells holding consecutive slices of one symbol read back twice; seq: directed byte-part / constant / setcc sequences and 216 concrete-operand sequences (mov eax,K ; mov ebx,K ; mov cl,n ; one of 36 shift/rotate/multiply/extend/bit instructions), every single encoding of a %d-instruction pool, sampled pairs, seeded sequences of length 3..12; rep: %d (prefix, string op, count, df) cases'
                 % ('0..4' if tier == 'quick' else '0..7', '-2..5' if tier == 'quick' else '-3..7', len(SEQ_CODE), len(R)))
     run.explanation = ('history-bounded, valuation-unbounded: each observation (register expression, memory read-back) of the real machine is proved equal to a byte-addressed sequential reference for all '
-                       'valuations of the initial symbols; the alias logic of eval_ExprMem/get_mem_overlapping is not proved inductively (it decides aliasing through expr_simp)')
+                       'valuations of the initial symbols; proved from their ASTs for all inputs (SMT-A): rest_slice (gaps of an overlapping read) and substract_mems (what survives of an overwritten cell); the alias '
+                       'decision of eval_ExprMem/get_mem_overlapping itself goes through expr_simp and is covered by the histories only')
     run.samples = [str(H[0]), str(H[len(H) // 2]), ' '.join(Q[-1]), str(R[0])]
-    run.trust('z3; liftvc/den.py'); run.assume('stores use fresh symbolic values; addresses are base+constant')
+    run.trust('z3; liftvc/den.py'); run.assume('stores use fresh symbolic values or slices of one symbol; addresses are base+constant')
     # SMT-A: the gap finder of overlapping reads, verified from its AST for all bounds
     from checks import C07smt
     C07smt.ob_smt(run)
